@@ -55,6 +55,16 @@ def run(R):
                            {"op": "process_mut", "x": 2, "data_from": 4}]
                 hs.append(b)
                 R.count((variant, rounds, "involution", n))
+    # single calls longer than any internal window (a bulk path that handles 4 KiB or 8 blocks at a time): from a fresh context and from mid-block
+    for variant, (nl, keylens, wide) in sc.VARIANTS.items():
+        for op in ("process", "process_mut"):
+            for pre, n in ((0, 4097), (1, 5000)) if not thorough else ((0, 4096), (0, 4097), (1, 5000), (63, 8193), (64, 12289)):
+                b = sc.base(R, variant, 20 if op == "process" else 8, keylens[-1], "long/%s/%s" % (variant, op))
+                b["id"] = R.next_id()
+                d = vlib.prng_bytes(R.seed, "long/%s/%d" % (variant, n), n + pre)
+                b["ev"] = [{"op": "new"}] + ([{"op": "process_mut", "x": 1, "data": d[:pre]}] if pre else []) + [{"op": op, "x": 1, "data": d[pre:]}, {"op": "process", "x": 1, "data": d[:7]}]
+                hs.append(b)
+                R.count((variant, op, "long", pre, n))
     # ---- position matrix: (where the context stood) x (where it is sent, once or twice in a row) x (what is asked next, incl. calls of 8 blocks
     # and more from mid-block), every combination for one (variant, rounds) per counter discipline, a seeded part for the others
     plens = [0, 1, 63, 65, 513]
